@@ -889,6 +889,9 @@ func (ex *Exec) jsonDecodeAny(n *JNode) Iface {
 	case JBytes:
 		ex.unsupported("json: base64 text of bytes decoded into interface{}")
 	case JNum:
+		if ex.jsonUseNumber {
+			ex.unsupported("json: number decoded into interface{} by a Decoder with UseNumber (json.Number)")
+		}
 		if n.isFloat {
 			return Iface{t: types.Typ[types.Float64], v: n.f}
 		}
@@ -1019,8 +1022,15 @@ func init() {
 	// The decoder object is a cell holding the reader and the number of values decoded so far.
 	reg("encoding/json.NewDecoder", func(ex *Exec, fn *ssa.Function, a []Value) Value {
 		cell := new(Value)
-		*cell = Struct{a[0], ex.tc.BV(0, 64)}
+		*cell = Struct{a[0], ex.tc.BV(0, 64), ex.tc.False}
 		return cell
+	})
+	// UseNumber: numbers decoded into interface{} become json.Number (typed targets are not affected)
+	reg("(*encoding/json.Decoder).UseNumber", func(ex *Exec, fn *ssa.Function, a []Value) Value {
+		cell := a[0].(*Value)
+		st := (*cell).(Struct)
+		*cell = Struct{st[0], st[1], ex.tc.True}
+		return nil
 	})
 	reg("(*encoding/json.Decoder).Decode", func(ex *Exec, fn *ssa.Function, a []Value) Value {
 		cell := a[0].(*Value)
@@ -1053,7 +1063,9 @@ func init() {
 		if !got {
 			ex.unsupported("json.Decoder over a reader other than *bytes.Reader / *strings.Reader")
 		}
-		*cell = Struct{st[0], ex.tc.BV(used+1, 64)}
+		*cell = Struct{st[0], ex.tc.BV(used+1, 64), st[2]}
+		ex.jsonUseNumber = st[2].(*Term).IsTrue()
+		defer func() { ex.jsonUseNumber = false }()
 		var n *JNode
 		if an, ok := data.abs.(*JNode); ok {
 			switch {
